@@ -395,7 +395,7 @@ Proof.
   - eapply dok_trans; [exact P1|apply after_connect_pre].
 Qed.
 
-Lemma run_later_pre cf ps st pr buf l : delta_ok q_pre l (fst (fst (run_later cf ps st pr buf l))).
+Lemma run_later_pre cf ps st pr l : delta_ok q_pre l (fst (fst (run_later cf ps st pr l))).
 Proof.
   unfold run_later. pose proof (chain_dok HCR ARequest handle_client_request ps pr l) as H.
   destruct (chain HCR ARequest handle_client_request ps pr l) as [l1 e]. cbn [fst] in H.
@@ -409,8 +409,8 @@ Qed.
 Lemma client_loop_pre cf ps st parses l : delta_ok q_pre l (fst (client_loop cf ps st parses l)).
 Proof.
   revert st l. induction parses as [|[|pr rem] t IH]; intros st l; cbn [client_loop]; try apply dok_refl.
-  pose proof (run_later_pre cf ps st pr rem l) as H.
-  destruct (run_later cf ps st pr rem l) as [[l1 e] r]. cbn [fst] in H.
+  pose proof (run_later_pre cf ps st (set_buffer pr rem) l) as H.
+  destruct (run_later cf ps st (set_buffer pr rem) l) as [[l1 e] r]. cbn [fst] in H.
   destruct e as [st1|st1 f]; [|exact H]. destruct r as [rem'|]; [|exact H].
   destruct (st_pipeline st1); cbn [fst].
   - eapply dok_trans; [exact H|apply dok_app; reflexivity].
@@ -424,10 +424,10 @@ Proof.
     destruct (chain HCD ABytes handle_client_data ps raw l) as [l1 e]. cbn [fst] in H.
     destruct (fail_of_end e); cbn [fst]; chain_pre H HCD.
   - destruct (rq_tunnel (st_request st)); [apply dok_app; reflexivity|].
-    destruct (st_pipeline st) as [[pr buf]|]; [|apply client_loop_pre].
+    destruct (st_pipeline st) as [pr|]; [|apply client_loop_pre].
     destruct (is_connection_upgrade pr); [apply dok_app; reflexivity|].
-    pose proof (run_later_pre cf ps st pr (buf ++ raw) l) as H.
-    destruct (run_later cf ps st pr (buf ++ raw) l) as [[l1 e] r]. cbn [fst] in H.
+    pose proof (run_later_pre cf ps st (set_buffer pr (rq_buffer pr ++ raw)) l) as H.
+    destruct (run_later cf ps st (set_buffer pr (rq_buffer pr ++ raw)) l) as [[l1 e] r]. cbn [fst] in H.
     destruct e as [st1|st1 f]; [|exact H]. destruct r as [rem'|]; [|exact H].
     destruct (st_pipeline st1); cbn [fst].
     + eapply dok_trans; [exact H|apply dok_app; reflexivity].
@@ -618,7 +618,8 @@ Proof.
   pose proof (chain_preserves (ctx_ok (rq_tunnel (st_request st))) OAL ACtx on_access_log ps c0 l0) as Hinv.
   destruct (chain OAL ACtx on_access_log ps c0 l0) as [l1 e] eqn:Ec. cbn [fst snd] in *. subst l1.
   exists l0, st, dOAL, e. split; [exact Hpre|]. split; [exists lr; split; reflexivity|]. split; [exact Ec|].
-  unfold shutdown_core, on_client_connection_close, access_log_stage. rewrite Ec.
+  change (shutdown_core ps (Some st) c0 l0 = l0 ++ dOAL ++ match e with Done c => [AccessLog c] | _ => [] end ++ map (fun p => Call (pid p) OUCC AUnit) ps ++ (if st_upstream st then [UpstreamClose] else []) ++ [ClientShutdown; ClientClose]).
+  clearbody l0. unfold shutdown_core, on_client_connection_close, access_log_stage. rewrite Ec.
   destruct Ht as [_ Hcl].
   destruct e as [c|c|c r|c x]; try contradiction.
   - unfold access_log.
@@ -804,9 +805,9 @@ Theorem drop_first_request cf ps connected r1 l2 l3 rx :
 Proof. intros H. unfold after_connect. rewrite H. reflexivity. Qed.
 
 (* ... and on a later request of the connection *)
-Theorem drop_later_request cf ps st pr buf l l1 rx :
+Theorem drop_later_request cf ps st pr l l1 rx :
   chain HCR ARequest handle_client_request ps pr l = (l1, Dropped rx) ->
-  run_later cf ps st pr buf l = (l1, Continue (mkState (st_request st) true (Some (rx, buf))), None)
+  run_later cf ps st pr l = (l1, Continue (mkState (st_request st) true (Some rx)), None)
   /\ upstream_queue l1 = upstream_queue l.
 Proof.
   intros H. unfold run_later. rewrite H. split; [reflexivity|].
@@ -849,9 +850,9 @@ Proof.
   split; reflexivity.
 Qed.
 
-Theorem reject_later_request cf ps st pr buf l l1 rx resp :
+Theorem reject_later_request cf ps st pr l l1 rx resp :
   chain HCR ARequest handle_client_request ps pr l = (l1, Rejected rx resp) ->
-  run_later cf ps st pr buf l = (l1, Failed (mkState (st_request st) true (Some (rx, buf))) (FReject resp), None)
+  run_later cf ps st pr l = (l1, Failed (mkState (st_request st) true (Some rx)) (FReject resp), None)
   /\ upstream_queue l1 = upstream_queue l /\ client_queue l1 = client_queue l.
 Proof.
   intros H. unfold run_later. rewrite H. cbn [norm_end]. split; [reflexivity|].
@@ -872,7 +873,10 @@ Definition parse_wf (p : parse_result) : Prop := match p with PComplete r _ => w
 Definition step_wf (s : step) : Prop :=
   match s with SFirst r _ => wf_request r | SClient _ parses => Forall parse_wf parses | _ => True end.
 Definition qclean (l : log) : Prop := forall b, In (QueueUpstream QRequest b) l -> clean_pkt b.
-Definition pipe_wf (st : pstate) : Prop := match st_pipeline st with Some (pr, _) => wf_request pr | None => True end.
+Definition pipe_wf (st : pstate) : Prop := match st_pipeline st with Some pr => wf_request pr | None => True end.
+
+Lemma wf_set_buffer r b : wf_request (set_buffer r b) <-> wf_request r.
+Proof. unfold wf_request, set_buffer. cbn [rq_headers]. tauto. Qed.
 
 Lemma qclean_dok l l' : qclean l -> delta_ok q_noup l l' -> qclean l'.
 Proof.
@@ -957,8 +961,8 @@ Proof.
   - now apply after_connect_clean.
 Qed.
 
-Lemma run_later_clean cf ps st pr buf l : Forall plugin_wf ps -> wf_request pr -> qclean l ->
-  qclean (fst (fst (run_later cf ps st pr buf l))) /\ pipe_wf (end_state (snd (fst (run_later cf ps st pr buf l)))).
+Lemma run_later_clean cf ps st pr l : Forall plugin_wf ps -> wf_request pr -> qclean l ->
+  qclean (fst (fst (run_later cf ps st pr l))) /\ pipe_wf (end_state (snd (fst (run_later cf ps st pr l)))).
 Proof.
   intros Hp Hr Hq. unfold run_later.
   pose proof (chain_dok HCR ARequest handle_client_request ps pr l) as H1.
@@ -969,7 +973,7 @@ Proof.
   pose proof (queue_request_clean cf (rq_tunnel (st_request st)) x l1 Hv Q1) as [H4 H5].
   destruct (queue_request_for_upstream cf (rq_tunnel (st_request st)) x l1) as [[l2 r2] f]. cbn [fst snd] in H4, H5.
   destruct f; cbn [fst snd end_state]; (split; [exact H4|]); unfold pipe_wf; cbn [st_pipeline]; [exact H5|].
-  destruct (is_connection_upgrade r2); [exact H5|exact I].
+  destruct (is_connection_upgrade r2); [now apply wf_set_buffer|exact I].
 Qed.
 
 Lemma client_loop_clean cf ps st parses l : Forall plugin_wf ps -> Forall parse_wf parses -> pipe_wf st -> qclean l ->
@@ -978,8 +982,8 @@ Proof.
   intros Hp. revert st l. induction parses as [|[|pr rem] t IH]; intros st l Hw Hs Hq; cbn [client_loop];
     try (cbn [fst snd end_state]; now split).
   inversion Hw as [|? ? Hw1 Hw2]; subst. cbn [parse_wf] in Hw1.
-  pose proof (run_later_clean cf ps st pr rem l Hp Hw1 Hq) as [H1 H2].
-  destruct (run_later cf ps st pr rem l) as [[l1 e] r]. cbn [fst snd] in H1, H2.
+  pose proof (run_later_clean cf ps st (set_buffer pr rem) l Hp (proj2 (wf_set_buffer pr rem) Hw1) Hq) as [H1 H2].
+  destruct (run_later cf ps st (set_buffer pr rem) l) as [[l1 e] r]. cbn [fst snd] in H1, H2.
   destruct e as [st1|st1 f]; [|cbn [fst snd]; now split]. destruct r as [rem'|]; [|cbn [fst snd]; now split].
   cbn [end_state] in H2. destruct (st_pipeline st1) eqn:Ep.
   - cbn [fst snd end_state]. split; [|exact H2].
@@ -999,10 +1003,10 @@ Proof.
   - assert (QR : forall l0 x, qclean l0 -> qclean (l0 ++ [QueueUpstream QRaw x])).
     { intros l0 x H0 b Hb. apply in_app_or in Hb as [Hb|[Hb|[]]]; [now apply H0|discriminate]. }
     destruct (rq_tunnel (st_request st)); [cbn [fst snd end_state]; split; [now apply QR|exact Hs]|].
-    pose proof Hs as Hs'. unfold pipe_wf in Hs'. destruct (st_pipeline st) as [[pr buf]|] eqn:Ep.
+    pose proof Hs as Hs'. unfold pipe_wf in Hs'. destruct (st_pipeline st) as [pr|] eqn:Ep.
     + destruct (is_connection_upgrade pr); [cbn [fst snd end_state]; split; [now apply QR|exact Hs]|].
-      pose proof (run_later_clean cf ps st pr (buf ++ raw) l Hp Hs' Hq) as [H1 H2].
-      destruct (run_later cf ps st pr (buf ++ raw) l) as [[l1 e] r]. cbn [fst snd] in H1, H2.
+      pose proof (run_later_clean cf ps st (set_buffer pr (rq_buffer pr ++ raw)) l Hp (proj2 (wf_set_buffer pr _) Hs') Hq) as [H1 H2].
+      destruct (run_later cf ps st (set_buffer pr (rq_buffer pr ++ raw)) l) as [[l1 e] r]. cbn [fst snd] in H1, H2.
       destruct e as [st1|st1 f]; [|cbn [fst snd]; now split]. destruct r as [rem'|]; [|cbn [fst snd]; now split].
       cbn [end_state] in H2. destruct (st_pipeline st1) eqn:Ep1.
       * cbn [fst snd end_state]. split; [now apply QR|exact H2].
